@@ -271,7 +271,7 @@ func (s *Service) onStopStream(w http.ResponseWriter, r *http.Request, pathParam
 
 	rt = media.Get(path)
 	if rt != nil {
-		rt.Close()
+		media.Unregist(rt)
 	}
 
 	w.WriteHeader(http.StatusOK)
